@@ -41,6 +41,15 @@ Section C19.
       meets (snd (step (run h) (StatefulAuth sn pn c))) (spec_of h sn pn) c.
   Proof. exact (stateful_final src pset schema call answer parse_pset parse_schema authorize). Qed.
 
+  (* the stateful answer is a function of the last successful registrations under the two names
+     the call uses — policy set AND schema; nothing else of the history matters *)
+  Theorem c19_stateful_depends_only :
+    forall (h h' : list (op src call)) (sn : option cname) (pn : cname) (c : call),
+      reg_pset h pn = reg_pset h' pn ->
+      (forall n, sn = Some n -> reg_schema h n = reg_schema h' n) ->
+      snd (step (run h) (StatefulAuth sn pn c)) = snd (step (run h') (StatefulAuth sn pn c)).
+  Proof. exact (stateful_depends_only src pset schema call answer parse_pset parse_schema authorize). Qed.
+
   (* a registration whose source does not parse leaves the cache as it was *)
   Theorem c19_failed_preparse_noop :
     forall (st : state pset schema) (n : cname) (s : src),
@@ -67,6 +76,7 @@ Section C19.
 End C19.
 Print Assumptions c19_stateful.
 Print Assumptions c19_stateful_final.
+Print Assumptions c19_stateful_depends_only.
 Print Assumptions c19_failed_preparse_noop.
 Print Assumptions c19_auth_readonly.
 Print Assumptions c19_names_independent.
@@ -85,12 +95,22 @@ Theorem c19_assembly_text_ok :
 Proof. exact assembly_text_ok. Qed.
 Print Assumptions c19_assembly_text_ok.
 
-(* policies given as a JSON array: each is parsed with id None = policy0, so two or more always
-   collide (what the code does; reported in notes/C19.md) *)
+(* policies given as a JSON array: each element is parsed with id None, i.e. `policy0` for a text
+   element and `JSON policy` for a JSON element, so two elements of the same kind ALWAYS collide
+   (what the code does; finding F-C19-array in notes/C19.md) *)
 Theorem c19_assembly_set_fails :
-  forall (B : Type) (b1 b2 : B) (ps : list B), assemble (SetOf (b1 :: b2 :: ps)) = None.
+  forall (B : Type) (k : bool) (b1 b2 : B) (l1 l2 l3 : list (bool * B)),
+    assemble (SetOf (l1 ++ (k, b1) :: l2 ++ (k, b2) :: l3)) = None.
 Proof. exact assembly_set_fails. Qed.
 Print Assumptions c19_assembly_set_fails.
+
+(* "every array of well-formed static policies assembles" is FALSE of the faithful model:
+   witness = two policies in Cedar text; replayed on the implementation by vp/props/c19.py *)
+Theorem c19_assembly_set_refuted :
+  exists ps : list (bool * unit),
+    (forall kb, In kb ps -> fst kb = false) /\ assemble (SetOf ps) = None.
+Proof. exact assembly_set_refuted. Qed.
+Print Assumptions c19_assembly_set_refuted.
 
 (* CLI authorize: 0 allow / 2 deny / 1 error, and the status determines the outcome *)
 Theorem c19_exit_code :
@@ -134,7 +154,8 @@ Example c19_ids_ex :
   map fst (assign_ids (Concatenated (repeat tt 12))) =
   map policy_id [0;1;2;3;4;5;6;7;8;9;10;11]%N
   /\ policy_id 11 = [112; 111; 108; 105; 99; 121; 49; 49]%N
-  /\ assemble (SetOf [tt; tt]) = None /\ assemble (SetOf [tt]) = Some [(policy_id 0, tt)].
+  /\ assemble (SetOf [(false, tt); (false, tt)]) = None /\ assemble (SetOf [(false, tt)]) = Some [(policy_id 0, tt)]
+  /\ assemble (SetOf [(true, tt); (false, tt)]) = Some [(json_policy_id, tt); (policy_id 0, tt)].
 Proof. vm_compute. repeat split; reflexivity. Qed.
 Example c19_exit_ex :
   exit_code (validate_exit false (VoResult false false)) = 3%N /\
